@@ -1,7 +1,7 @@
 (* c14 driver.  stdin: one case per line; fields separated by '|', ';', ',' (three levels).
      lint := s e kind prio ; message cps ; sugg , sugg ...        sugg := R cps | I cps | D
      doc  := source cps ; tok , tok ...                            tok  := s e KIND
-     KIND := W - | W code | P code | Q - | Q n | D | N code (-|code) | S n | L n | E | U | H | X | B | R
+     KIND := W - | W code | P code | Q - | Q n | D | N code (-|code) radix precision | S n | L n | E | U | H | X | B | R
    C<v> lint | doc              -> token indices of LintContext::from_lint (prequel ++ problem ++ sequel)
    X<v> lint | doc | lint | doc -> S (same context: lint 2 is ignored after ignoring lint 1), D, or P (panic)
         <v> = the variant of the context the implementation follows (0 = as it is now, 1 = F12 repaired,
@@ -41,7 +41,7 @@ let parse_kind ws =
   | ["Q"; "-"] -> KQuote None
   | ["Q"; n] -> KQuote (Some (nat_of_int (int_of_string n)))
   | ["D"] -> KDecade
-  | ["N"; v; s] -> KNumber (n_of_int (int_of_string v), opt_code s)
+  | ["N"; v; s; r; p] -> KNumber (n_of_int (int_of_string v), opt_code s, n_of_int (int_of_string r), nat_of_int (int_of_string p))
   | ["S"; n] -> KSpace (nat_of_int (int_of_string n))
   | ["L"; n] -> KNewline (nat_of_int (int_of_string n))
   | ["E"] -> KEmail | ["U"] -> KUrl | ["H"] -> KHostname | ["X"] -> KUnlintable
